@@ -67,10 +67,22 @@ M_EXP = {'laminar': 1.0, 'turbulent': 0.18}     # Cheng-Todreas Re exponents
 #              (This presumes x1, x3 have settled like x2, which is what a
 #              converged iteration means; a scratch copy whose stop rule tests all
 #              three components passes this tolerance on the whole alphabet.)
+#  TOL_X     : the stop rule is defined on the split, not on the gradients, and
+#              the friction law has unbounded slope where a subchannel sits on
+#              its own regime boundary (psi^(1/3), (1-psi)^(1/3) at psi = 0, 1):
+#              there a split that is converged to the solver's resolution can
+#              still show > 1e-3 in the gradients.  A level whose gradient
+#              spread exceeds TOL_ITER is therefore accepted iff the returned
+#              split equals the exact equal-gradient split (nested bisection in
+#              the harness, verified to 1e-9) to within TOL_X.  Linear
+#              convergence with factor q leaves |x - x*| <= q/(1-q) * 1e-5 after
+#              the stop; reaching 1e-5 within the 100-step limit from an O(1)
+#              start needs q <= (1e-5)^(1/100) = 0.891, i.e. <= 8.2e-5 -> 1e-4.
 #  TOL_BUNDLE: identity between closed-form split and bundle constant (pow chain)
 TOL_SUM = 1e-12
 TOL_CLOSED = 1e-12
 TOL_ITER = 1e-3
+TOL_X = 1e-4
 TOL_BUNDLE = 1e-10
 
 
@@ -257,36 +269,120 @@ def ct_step(ref, re_b, x, ktot):
     return np.array([r1 * x2, x2, r3 * x2])
 
 
-def ct_emulate(ref, re_b, ktot):
-    """the code's iteration (start at 1, stop when |dx2| < 1e-5, at most 100
-    steps, return the NEW point) with harness formulas; None = limit reached"""
+def ct_emulate(ref, re_b, ktot, rule):
+    """the code's iteration (start at 1, at most 100 steps, return the NEW
+    point) with harness formulas; rule 'x2': stop when |dx2| < 1e-5 (the tree
+    before the stop-rule repair), rule 'all': stop when all three components
+    move by < 1e-5 relative; None = limit reached"""
     x = np.ones(3)
     for _ in range(100):
         xn = ct_step(ref, re_b, x, ktot)
-        if abs(xn[1] - x[1]) < 1e-5:
+        if rule == 'x2':
+            stop = abs(xn[1] - x[1]) < 1e-5
+        else:
+            stop = float(np.max(np.abs(xn / x - 1.0))) < 1e-5
+        if stop:
             return xn
         x = xn
     return None
 
 
+def ct_approx(ref, re_b, bl, bt):
+    """Cheng's approximate transition split as coded (beta = 5), regime bounds
+    given separately; labelling only"""
+    de, deb, s = ref['de'], ref['deb'], ref['s']
+    intf = (math.log10(re_b) - math.log10(bl)) / (math.log10(bt) - math.log10(bl))
+    if not 0.0 <= intf <= 1.0:
+        return None
+    m = M_EXP['turbulent']
+    a = ref['cf']['laminar'] * deb / de ** 2 * (1.0 - intf) ** (1.0 / 3.0) / re_b
+    b = (ref['cf']['turbulent'] * deb ** m / de ** (m + 1.0)
+         * intf ** (1.0 / 3.0) / re_b ** m) ** (1.0 / (2.0 - m))
+    xr = a + 5.0 * b
+    r1, r3 = xr[1] / xr[0], xr[1] / xr[2]
+    x2 = 1.0 / (s[1] + s[0] * r1 + s[2] * r3)
+    return np.array([r1 * x2, x2, r3 * x2])
+
+
+def ct_exact(ref, re_b, ktot):
+    """exact equal-gradient split by nested bisection (scalar arithmetic):
+    inner  h_i(x) = (f_i(x) L/De_i + K) x^2 = G  for each type,
+    outer  sum_i s_i x_i(G) = 1.  Returns None unless the result really has
+    equal gradients (1e-9) and conserves mass (1e-12)."""
+    deb, lam = ref['deb'], ref['lam']
+    par = []
+    for i in range(3):
+        de = float(ref['de'][i])
+        reil = ref['bl'] * float(ref['x']['laminar'][i]) * de / deb
+        reit = ref['bt'] * float(ref['x']['turbulent'][i]) * de / deb
+        par.append((de, float(ref['cf']['laminar'][i]), float(ref['cf']['turbulent'][i]),
+                    reil, 1.0 / math.log10(reit / reil)))
+    mt = M_EXP['turbulent']
+
+    def h(i, x):
+        de, cfl, cft, reil, inv = par[i]
+        rei = re_b * x * de / deb
+        psi = math.log10(rei / reil) * inv
+        psi = 0.0 if psi < 0.0 else (1.0 if psi > 1.0 else psi)
+        f = cfl / rei * (1.0 - psi) ** (1.0 / 3.0)
+        if lam is not None:
+            f *= (1.0 - psi ** lam)
+        f += cft / rei ** mt * psi ** (1.0 / 3.0)
+        return (f * LENGTH / de + ktot) * x * x
+
+    lo_x, hi_x = math.log(1e-4), math.log(1e2)
+
+    def x_of(i, G):
+        a, b = lo_x, hi_x
+        for _ in range(60):
+            mid = 0.5 * (a + b)
+            if h(i, math.exp(mid)) < G:
+                a = mid
+            else:
+                b = mid
+        return math.exp(0.5 * (a + b))
+
+    s = [float(v) for v in ref['s']]
+    ga = math.log(min(h(i, 1e-4) for i in range(3)))
+    gb = math.log(max(h(i, 1e2) for i in range(3)))
+    for _ in range(70):
+        gm = 0.5 * (ga + gb)
+        tot = sum(s[i] * x_of(i, math.exp(gm)) for i in range(3))
+        if tot < 1.0:
+            ga = gm
+        else:
+            gb = gm
+    G = math.exp(0.5 * (ga + gb))
+    x = np.array([x_of(i, G) for i in range(3)])
+    g = np.array([h(i, float(x[i])) for i in range(3)])
+    if spread(g) < 1e-9 and abs(float(np.sum(ref['s'] * x)) - 1.0) < 1e-12:
+        return x
+    return None
+
+
+def _same(a, b):
+    return a is not None and b is not None and float(np.max(np.abs(a - b))) < 1e-9
+
+
 def ct_classify(ref, ref_ff, re_b, x_code, ktot):
-    """label (never decide) a gradient mismatch:
-    foreign-friction : the returned split is what the iteration gives with the
+    """label (never decide) a split that is not the equal-gradient split:
+    approx-fallback  : it is the approximate (beta = 5) formula's value
+    foreign-friction : it is what iteration / approximation give with the
                        regime bounds / Cf_i of the FRICTION correlation
-    approx-fallback  : with own constants the stop rule is not met in 100 steps
-    early-stop       : own constants, stop rule met, but the returned point
-                       still moves by > 1e-5 under one more step"""
-    own = ct_emulate(ref, re_b, ktot)
-    if own is not None and float(np.max(np.abs(own - x_code))) < 1e-9:
-        move = float(np.max(np.abs(ct_step(ref, re_b, x_code, ktot) - x_code)))
-        return ('early-stop' if move > 1e-5 else 'other'), move
+    early-stop       : it is what the iteration returns by its own stop rule"""
+    if ktot == 0.0 and _same(ct_approx(ref, re_b, ref['bl'], ref['bt']), x_code):
+        return 'approx-fallback'
+    for rule in ('all', 'x2'):
+        if _same(ct_emulate(ref, re_b, ktot, rule), x_code):
+            return 'early-stop'
     if ref_ff is not None:
-        mixed = ct_emulate(ref_ff, re_b, ktot)
-        if mixed is None or float(np.max(np.abs(mixed - x_code))) < 1e-9:
-            return 'foreign-friction', None
-    if own is None:
-        return 'approx-fallback', None
-    return 'other', None
+        cands = [ct_emulate(ref_ff, re_b, ktot, 'all'), ct_emulate(ref_ff, re_b, ktot, 'x2')]
+        if ktot == 0.0:
+            cands += [ct_approx(ref, re_b, ref_ff['bl'], ref_ff['bt']),
+                      ct_approx(ref_ff, re_b, ref_ff['bl'], ref_ff['bt'])]
+        if any(_same(x, x_code) for x in cands) or all(x is None for x in cands[:2]):
+            return 'foreign-friction'
+    return 'other'
 
 
 def spread(g):
@@ -309,7 +405,7 @@ def run_case(c):
                               'ff', 'fs', 'mix')}
     if c.get('probe'):
         base['probe'] = c['probe']
-    ex = {'accept': {}, 'levels': {}, 'dpdz': {}, 'bundle_eq': 0,
+    ex = {'accept': {}, 'levels': {}, 'dpdz': {}, 'bundle_eq': 0, 'passed_by_x_distance': 0,
           'exact_hits': 0, 'exact_miss': 0, 'construct_rejected': {}}
     r['extra'] = ex
 
@@ -392,7 +488,7 @@ def run_case(c):
         grouped[key] = v
         V.append(v)
 
-    worst = {'closed': 0.0, 'iter': 0.0, 'bundle': 0.0, 'mass': 0.0}
+    worst = {'closed': 0.0, 'iter': 0.0, 'bundle': 0.0, 'mass': 0.0, 'xdist': 0.0}
     done = 0
     for lab, target, exact in levels:
         if only is not None and lab != only:
@@ -503,7 +599,21 @@ def run_case(c):
                     worst['iter'] = max(worst['iter'], sp if np.isfinite(sp) else 9e9)
                 else:
                     worst['closed'] = max(worst['closed'], sp if np.isfinite(sp) else 9e9)
-                if not (sp <= tol):
+                viol = not (sp <= tol)
+                if viol and iterated and np.all(np.isfinite(g)) and \
+                        not (grid_on and 'grid' not in reg.corr):
+                    # tolerance of the iteration in the space it is defined in:
+                    # is the returned split the exact equal-gradient split to
+                    # within TOL_X?  (see TOL_X above)
+                    ktot = float(P['grid_loss_coeff']) * len(ZG) if grid_on else 0.0
+                    xs = ct_exact(ref, re_pred, ktot)
+                    if xs is not None:
+                        dx = float(np.max(np.abs(X / xs - 1.0)))
+                        worst['xdist'] = max(worst['xdist'], dx if dx <= TOL_X else 0.0)
+                        if dx <= TOL_X:
+                            viol = False
+                            cnt(ex, 'passed_by_x_distance')
+                if viol:
                     ktot = float(P['grid_loss_coeff']) * len(ZG) if grid_on else 0.0
                     if grid_on and 'grid' not in reg.corr:
                         kind, why = 'grid-loss-ignored-by-split', \
@@ -511,15 +621,18 @@ def run_case(c):
                     elif not np.all(np.isfinite(g)):
                         kind, why = 'dpdz-not-equal', 'non-finite gradient'
                     else:
-                        lab_, move = ct_classify(ref, ref_ff, re_pred, X, ktot)
+                        lab_ = ct_classify(ref, ref_ff, re_pred, X, ktot)
                         kind = 'dpdz-not-equal' + ('' if lab_ == 'other' else '-' + lab_)
                         why = {'foreign-friction': 'split iterated with the regime bounds / Cf_i of the '
                                                    'friction correlation',
                                'approx-fallback': 'iteration does not meet its stop rule in 100 steps; '
                                                   'approximate formula used',
-                               'early-stop': 'iteration stopped on |dx2|<1e-5 while another component '
-                                             'still moves by %.2e per step' % (move or 0.0),
+                               'early-stop': 'iteration stopped by its own rule away from the solution',
                                'other': 'unexplained'}[lab_]
+                        xs = ct_exact(ref, re_pred, ktot)
+                        if xs is not None:
+                            why += '; split / exact split - 1 = [%s]' % ', '.join(
+                                '%.1e' % v for v in (X / xs - 1.0))
                     bad(kind, lab, info,
                         'pressure gradient (friction%s) differs between subchannel types: '
                         'relative spread %.3e; %s' % (' + grid' if grid_on else '', sp, why),
@@ -571,7 +684,7 @@ def main(run):
     results = run.explore('combos', cs, run_case, budget_s=120)
     run.explore('reader', reader_cases(run.tier), run_case, budget_s=120)
     # summaries
-    w = {'closed': 0.0, 'iter': 0.0, 'bundle': 0.0, 'mass': 0.0}
+    w = {'closed': 0.0, 'iter': 0.0, 'bundle': 0.0, 'mass': 0.0, 'xdist': 0.0}
     crashed = set()
     accepted = set()
     probes = 0
@@ -589,6 +702,7 @@ def main(run):
     run.notes['worst_spread_iterated'] = w['iter']
     run.notes['worst_bundle_gradient_error'] = w['bundle']
     run.notes['worst_mass_error'] = w['mass']
+    run.notes['worst_accepted_split_distance'] = w['xdist']
     run.notes['combinations_with_crash'] = len(crashed)
     run.notes['levels_crashed'] = probes_crashed
     run.notes['accepted_wire_combinations'] = len([a for a in accepted if a[3]])
